@@ -186,12 +186,13 @@ PROPS = {
         "assumptions": ["the theorems are about reading a file / byte slice; reading from a live process (prefix reads, addresses instead of offsets) is "
                         "modelled and compared with the implementation on live targets, and memory = file is checked where the image is loaded at matching offsets",
                         "agreement: (a) over the parsed structure (what an independent reader lists) for every image; (b) as a serialiser round trip "
-                        "(C14_roundtrip_buildid) for 64-bit little-endian images with one PT_NOTE segment of GNU-owned notes and an arbitrary tail; "
-                        "the SONAME and the 32-bit / big-endian layouts have (a) only: partial"],
+                        "(C14_roundtrip_buildid, C14_roundtrip_soname) for 64-bit little-endian images: one PT_NOTE segment of GNU-owned notes, resp. "
+                        "PT_LOAD + PT_DYNAMIC with any leading entries and any string table around an ASCII name, each with an arbitrary tail; "
+                        "the 32-bit / big-endian layouts and non-ASCII names have (a) only: partial"],
         "explanation": "C14 theorems over the Lean model of module_reader.rs + the goblin rules it relies on: totality (value or one of three error variants; "
                        "every loop structurally bounded by the window read; unchecked additions stay below 2^64), the build id equals the descriptor of "
-                       "the first GNU/NT_GNU_BUILD_ID note of the PT_NOTE segments as an independent note lister finds it, a serialiser round trip for the build-id "
-                       "note (every descriptor, every list of preceding notes, every tail), the fall-back id is the column-wise XOR of the hashed range, "
+                       "the first GNU/NT_GNU_BUILD_ID note of the PT_NOTE segments as an independent note lister finds it, serialiser round trips for the build-id "
+                       "note (every descriptor, every list of preceding notes, every tail) and for the SONAME (every leading dynamic entries, string table, tail), the fall-back id is the column-wise XOR of the hashed range, "
                        "the SONAME equals the string at the last DT_SONAME offset of the dynamic table as an independent lister finds it.",
     },
     "C08": {
